@@ -407,6 +407,13 @@ pub fn check_program(ops: &[String]) -> Option<()> {
                 num(w[4])?;
                 num(w[5])?;
             }
+            ("unmap", 3) => {
+                c.is(w[1], Kind::Proc)?;
+                num(w[2])?;
+            }
+            ("clearmaps", 2) => {
+                c.is(w[1], Kind::Proc)?;
+            }
             ("string", 3) => {
                 unhex_str(w[2])?;
                 c.def(w[1], Kind::Str)?;
@@ -757,6 +764,16 @@ impl Exec {
                 let pr = self.proc(w[1])?;
                 let l = self.lib(w[2])?;
                 self.p.add_lib_mapping(pr, l, num(w[3])?, num(w[4])?, num(w[5])? as u32);
+                Some("ok".into())
+            }
+            "unmap" => {
+                let pr = self.proc(w[1])?;
+                self.p.remove_lib_mapping(pr, num(w[2])?);
+                Some("ok".into())
+            }
+            "clearmaps" => {
+                let pr = self.proc(w[1])?;
+                self.p.clear_process_lib_mappings(pr);
                 Some("ok".into())
             }
             "string" => {
